@@ -481,6 +481,9 @@ func SelectionOwnedByEngine(p *core.Program, r *core.Report, rule string) {
 			}
 			n++
 			_, isOwner := owners[fd.Pkg.PkgPath]
+			if strings.HasPrefix(fd.Pkg.PkgPath, core.PkgEval+"/") {
+				isOwner = true // a package inside the engine (a helper package split off eval or eval/internal/k8s)
+			}
 			r.Check(isOwner, rule, fd.Key()+": label selectors are matched inside the policy engine only", p.Pos(c.Pos()), "a package that owns selection",
 				"a label selector is matched outside the policy engine: a second implementation of `which objects does this policy select` works on its own view of the labels and can disagree with the engine (list and eval, or CLI and API, then apply different policy sets to the same pods)")
 			return true
